@@ -202,7 +202,7 @@ def run(ctx):
     NF = 2
     _env.update(NF=NF, dir=ctx.scratch)
     D = 3 if ctx.thorough else 2
-    r = ctx.tlc("UnitCell", "UnitCell_D%d.cfg" % D, workers=16, cfg_text=CFG % dict(NF=NF, D=D, view="VIEW View", emit="Emit"), timeout=1500)
+    r = ctx.tlc("UnitCell", "UnitCell_D%d.cfg" % D, workers=1, cfg_text=CFG % dict(NF=NF, D=D, view="VIEW View", emit="Emit"), timeout=1500)
     tests = list(r.tr)
     if not ctx.thorough:
         r2 = ctx.tlc("UnitCell", "UnitCell_D3s.cfg", workers=1, simulate=400, depth=7, seed=ctx.seed + 5,
